@@ -802,9 +802,27 @@ func c24Check(sc *c24Scenario, co *connOutcome, second bool, first *connOutcome,
 	if sc.Server.KeyKind2 != "" {
 		keys = append(keys, sc.Server.KeyKind2)
 	}
-	exp := c24Model(sc, ch.Suites, effVersions, clientCurves, keys)
+	// The client's preference is the order of its configured list (the suites it added itself follow): the model
+	// works on the offer in *that* order, so that a hello which re-orders the configured suites shows up as a
+	// violated preference.
+	offered := ch.Suites
+	if sc.Client.Suites != nil {
+		var inOrder []uint16
+		for _, id := range sc.Client.Suites {
+			if u16in(id, ch.Suites) && !u16in(id, inOrder) {
+				inOrder = append(inOrder, id)
+			}
+		}
+		for _, id := range ch.Suites {
+			if !u16in(id, inOrder) {
+				inOrder = append(inOrder, id)
+			}
+		}
+		offered = inOrder
+	}
+	exp := c24Model(sc, offered, effVersions, clientCurves, keys)
 	if len(keys) > 1 {
-		strict := c24Model(sc, ch.Suites, effVersions, clientCurves, []string{"strict:" + keys[0], "strict:" + keys[1]})
+		strict := c24Model(sc, offered, effVersions, clientCurves, []string{"strict:" + keys[0], "strict:" + keys[1]})
 		exp.MustWork = strict.MustWork
 	}
 	if exp.MustFail || exp.MustWork {
@@ -869,7 +887,7 @@ func c24Check(sc *c24Scenario, co *connOutcome, second bool, first *connOutcome,
 			return Failf("c24.cert", "server presented a certificate that is not one of its configured certificates", "keys %v", keys)
 		}
 		o.count("probe.multi_cert_chose_"+map[bool]string{true: "first", false: "second"}[chosenKey == sc.Server.KeyKind], 1)
-		exp = c24Model(sc, ch.Suites, effVersions, clientCurves, []string{chosenKey})
+		exp = c24Model(sc, offered, effVersions, clientCurves, []string{chosenKey})
 	}
 	if !si.keyOK(chosenKey) {
 		return Failf("c24.suite", "negotiated suite cannot be authenticated with the server key", "suite %04x key %s", cs.CipherSuite, chosenKey)
